@@ -109,9 +109,9 @@ R.contract(
 R.shape(
     "ProgressIndicator",
     _io="ref Output", _fmt="str", _interval="int", _values="list[str]", _message="str?", _update_time="int?",
-    _started="bool", _current="int", g_frames="int",
+    _started="bool", _current="int", g_frames="int", g_last_frame_after_join="bool",
 )
-PI_GHOST = ["self.g_frames", "CLOCK", "self._io._stream.g_count", "self._io._stream.g_last", "self._io._stream.g_text"]
+PI_GHOST = ["self.g_frames", "self.g_last_frame_after_join", "CLOCK", "self._io._stream.g_count", "self._io._stream.g_last", "self._io._stream.g_text"]
 R.contract(
     PI + "_display", params={},
     requires=[ioc.VALID.replace("self.", "self._io.")],
@@ -142,3 +142,30 @@ R.contract(
     ],
     modifies=["self._io._stream.g_count", "self._io._stream.g_last", "self._io._stream.g_text"],
 )
+
+# ---------------------------------------------------------------- C19: leaving the automatic mode
+R.shape("ThreadEvent", external=True, g_set="bool")
+R.shape("Thread", external=True, g_joined="bool")
+R.shape("ProgressIndicator", _auto_running="ref ThreadEvent?", _auto_thread="ref Thread?",
+        g_last_frame_after_join="bool")
+R.contract("threading:ThreadEvent.set", params={}, ensures=["self.g_set"], modifies=["self.g_set"], assumed=True,
+           note="threading.Event.set()")
+R.contract("threading:Thread.join", params={}, ensures=["self.g_joined"], modifies=["self.g_joined"], assumed=True,
+           note="threading.Thread.join() returns once the thread has ended")
+c = R.contracts[PI + "_display"]
+c.ensures = c.ensures + ["[def] self.g_last_frame_after_join == (self._auto_thread is None or self._auto_thread.g_joined)"]
+R.contract(
+    PI + "finish", params={"message": "str", "reset_indicator": "bool"},
+    requires=[ioc.VALID.replace("self.", "self._io."), "(self._auto_thread is None) == (self._auto_running is None)"],
+    ensures=[
+        "not self._started",
+        "self._message == message",
+        # the spinner is told to stop and is joined ...
+        "implies(self._auto_thread is not None, self._auto_running.g_set and self._auto_thread.g_joined)",
+        # ... BEFORE the end message is drawn, so no spinner frame can follow it
+        "implies(not self._io._quiet, self.g_frames == old(self.g_frames) + 1 and self.g_last_frame_after_join)",
+    ],
+    raises={"RuntimeError": "not self._started"},
+    modifies=PI_GHOST + ["self._message", "self._current", "self._started",
+                         "ANY.g_set", "ANY.g_joined"],
+).defaults = {"reset_indicator": False}
